@@ -59,7 +59,14 @@ K5Obs(C, ev) ==
   ev.exc = "none" /\ ev.fresh /\ \E k \in Nodes(C) : /\ IsStrat(C, k) /\ k # Root /\ IsZero(ev.val[k])
                                    /\ \E x \in Nodes(C) : IsSec(C, x) /\ InSubtree(C, x, k)
                                                           /\ ~IsZero(ev.pos[x])
+\* K12: flatten / close in a fixed-income strategy read .position of a child
+\* strategy, which has none
+K12(C, ev) ==
+  /\ ev.exc # "none" /\ C.fi[ev.node]
+  /\ \/ ev.op = "flatten" /\ \E i \in 1..Len(C.kids[ev.node]) : IsStrat(C, C.kids[ev.node][i])
+     \/ ev.op \in {"close", "rebalance"} /\ IsStrat(C, ev.child)
 KnownFinding(C, s, ev, isSettled) ==
+  IF K12(C, ev) THEN "K12" ELSE
   \* K7: the paper-trading shadow of a sub-strategy is run on the pre-start row
   IF ev.exc # "none" /\ ev.op = "update" /\ ev.date = 1 /\ s.t = 0
      /\ (\E n \in Nodes(C) : n # Root /\ IsStrat(C, n)) THEN "K7" ELSE
